@@ -29,3 +29,34 @@ Proof.
   exists h'. split; [exact E|]. rewrite Ho. apply lzss_roundtrip. exact Hwf.
 Qed.
 Print Assumptions C05_lzss_end_to_end.
+
+(* ---- the KWAJ file format (Model/Kwaj.v, tied to kwajd.c by the correspondence check) ---- *)
+From MSP Require Import Gen.Consts Model.Chm Model.Kwaj Proofs.KwajP.
+
+(* kwajd_read_headers reads back every header a writer can produce: any combination of the six optional fields
+   (length, two unknown areas, name, extension, extra text), any higher flag bits, any data after the header *)
+Theorem C05_kwaj_headers_read_back : forall s rest, wf_kspec s rest ->
+  kwaj_open (enc_kwaj s ++ rest) = (MSPACK_ERR_OK, Some (khdr_of s)).
+Proof. exact kwaj_open_enc. Qed.
+Print Assumptions C05_kwaj_headers_read_back.
+Example C05_kwaj_sample : wf_kspec kspec_sample [200; 201].
+Proof. exact kspec_sample_wf. Qed.
+
+(* whole file, stored / XOR / SZDD methods: the member is exactly the payload, its complement, its LZSS expansion *)
+Theorem C05_kwaj_stored_file : forall s rest, wf_kspec s rest -> ks_dataoff s = len (enc_kwaj s) -> ks_comp s = MSKWAJ_COMP_NONE ->
+  kwaj_open (enc_kwaj s ++ rest) = (MSPACK_ERR_OK, Some (khdr_of s)) /\ kwaj_extract (enc_kwaj s ++ rest) (khdr_of s) = (MSPACK_ERR_OK, rest).
+Proof. exact kwaj_file_none. Qed.
+Print Assumptions C05_kwaj_stored_file.
+Theorem C05_kwaj_xor_file_roundtrip : forall s plain, wf_kspec s (map (fun c => N.lxor c 255) plain) ->
+  ks_dataoff s = len (enc_kwaj s) -> ks_comp s = MSKWAJ_COMP_XOR ->
+  kwaj_extract (enc_kwaj s ++ map (fun c => N.lxor c 255) plain) (khdr_of s) = (MSPACK_ERR_OK, plain).
+Proof. exact kwaj_xor_roundtrip. Qed.
+Print Assumptions C05_kwaj_xor_file_roundtrip.
+Theorem C05_kwaj_szdd_file_roundtrip : forall s ts, wf_kspec s (lzss_enc LZSS_MODE_QBASIC ts) ->
+  ks_dataoff s = len (enc_kwaj s) -> ks_comp s = MSKWAJ_COMP_SZDD -> forallb wf_tok ts = true ->
+  kwaj_extract (enc_kwaj s ++ lzss_enc LZSS_MODE_QBASIC ts) (khdr_of s) =
+  (MSPACK_ERR_OK, rev (sout (expand {| swin := Emp; spos := start_pos LZSS_MODE_QBASIC; sout := [] |} ts))).
+Proof.
+  intros s ts Hwf Hd Hc Ht. rewrite (proj2 (kwaj_file_szdd s _ Hwf Hd Hc)). f_equal. apply lzss_roundtrip. exact Ht.
+Qed.
+Print Assumptions C05_kwaj_szdd_file_roundtrip.
